@@ -70,6 +70,8 @@ def run(prog, chk):
     output_file(prog, chk)
     same_file(prog, chk)
     server_stack(prog, chk)
+    from props import C06
+    C06.hash_iteration(prog, chk)  # the same bytes from every front-end presupposes that no unordered iteration reaches the output
 
 
 # ---------------------------------------------------------------------------
